@@ -224,9 +224,6 @@ class ReadModifyWrite(Unit):
         for i in range(len(exp)):
             yield "C06", "only-the-field's-bits-change:byte%d" % i, got[i] == exp[i]
 
-    def canaries(self, case, a, out, X):
-        if out.kind == "return" and V.is_buffer(out.value) and len(out.value) == len(self.cells):
-            yield "canary:nothing-changes", V.bytes_eq(out.value, V.SBytes(self.cells) if V.contains_sym(self.cells) else bytearray(self.cells)) and False
 
 
 def build_units():
